@@ -464,6 +464,12 @@ AMBIENT = ['use_table', 'use_pass_list', 'pinned32', 'pinned_rtz16', 'calls_pinn
 # functions that pin their own context with @fp.fpy(ctx=...) (a common idiom): the caller's ctx= must not matter
 PINNED = ['pinned32', 'pinned_rtz16', 'calls_pinned']
 
+# the special cases the workload was written for, rotated through by the 'focus' run shape
+SPECIAL = ['pinned32', 'narrow', 'tenth', 'use_table', 'uses_closure', 'deep', 'ret_param', 'via_prim', 'calls_failing',
+           'calls', 'pinned_rtz16', 'narrow_neg', 'tenth16', 'use_pass_list', 'shadowing', 'ident_pair', 'ret_pair',
+           'via_picky', 'asserting', 'cap_num', 'calls_pinned', 'narrow_all', 'tenth32', 'mut_list', 'nested_lists',
+           'share_call', 'indexer', 'exact_or_fail', 'trans', 'directed', 'ident', 'slices']
+
 # functions that raise for some of their catalogue arguments (the program fails mid-evaluation)
 FAILING = ['asserting', 'indexer', 'exact_or_fail', 'calls_failing', 'via_picky']
 
